@@ -93,6 +93,7 @@ def run(ctx):
                     ctx.ob("C06.copy", con, f"{disc}:extended", ok_ext, why_ext, loc)
                     ctx.ob("C06.copy", con, f"{disc}:payload", ok_pay, why_pay, loc)
     ctx.floor("C06.dad-first", 23, "sinks")  # + 2 obligations on the DAD body below
+    _secured_forward(ctx)
     ctx.floor("C06.dpd-first", 37)
     if n_fwd < 8:
         raise AnalysisError(f"C06: only {n_fwd} forwarded-copy assemblies recognised (confirmed: 10)")
@@ -686,3 +687,41 @@ def cbf(ctx, handlers, cs):
                "DuplicatedPacketException handler does not remove and cancel the buffered copy: an overheard duplicate never "
                "cancels it (the cancel branch of gn_area_cbf_forwarding is dead)" if blocked and not handled else
                "duplicates reach the CBF cancel", f"{caller.module.rel}:{call.lineno}")
+
+
+def _secured_forward(ctx) -> None:
+    """A SECURED packet that is forwarded must leave as it came (RHL aside): the forwarders build the copy from the Basic
+    Header and the bytes they are handed, so after verification the dispatcher has to hand on the received secured bytes -
+    not only the plain message behind a Basic Header re-stamped NH=COMMON_HEADER (that copy would be emitted unsecured)."""
+    P = ctx.prog
+    psh = P.func(f"{G.ROUTER}.process_security_header")
+    fl = ctx.flows.get(psh)
+    calls = [c for c in P.calls_in(psh) if isinstance(c.func, ast.Attribute) and c.func.attr == "process_common_header"]
+    if not calls:
+        raise AnalysisError("C06: process_security_header no longer dispatches to process_common_header")
+    pkt_params = [p_ for p_ in psh.params[1:] if p_ != "basic_header"]
+    for i, c in enumerate(calls):
+        st = fl.state_at(c)
+        args = [fl.expand(a, st) for a in c.args] + [fl.expand(k.value, st) for k in c.keywords]
+        plain = any(any(isinstance(n, ast.Attribute) and n.attr == "plain_message" for n in ast.walk(a)) for a in args)
+        restamped = any(any(isinstance(n, ast.Call) and isinstance(n.func, ast.Attribute) and n.func.attr == "set_nh" for n in ast.walk(a)) for a in args)
+        def outside_verify(a):
+            """names of the received-bytes parameter that are NOT merely an input of the verify request"""
+            hits = []
+
+            def rec(n):
+                if isinstance(n, ast.Attribute) and n.attr in ("plain_message", "report"):
+                    return          # everything below is the verify call and its request
+                if isinstance(n, ast.Name) and n.id in pkt_params:
+                    hits.append(n.id)
+                for ch in ast.iter_child_nodes(n):
+                    rec(ch)
+            rec(a)
+            return hits
+        keeps_secured = any(outside_verify(a) for a in args)
+        ok = keeps_secured or not (plain and restamped)
+        ctx.ob("C06.copy", psh.short(), f"dispatch#{i}:secured-forwarded-as-received", ok,
+               "the forwarders are handed the received secured bytes" if ok else
+               "after verification only the PLAIN message and a Basic Header re-stamped NH=COMMON_HEADER are handed on: every forwarder "
+               "(GBC/GAC/TSB/GUC/LS) re-emits a secured packet UNSECURED - the copy differs from the received packet in far more than "
+               "RHL, and a next hop with itsGnSecurity ENABLED drops it", f"{psh.module.rel}:{c.lineno}")
